@@ -24,10 +24,14 @@ static inline mem_header_t *get_header(uint8_t *src) {
 
 /* Create new ref counted memory area */
 _public_ void *m_mem_new(size_t size, m_ref_dtor dtor) {
-    /* Always use maximum alignment for the platform */
-    const size_t total_size = sizeof(mem_header_t) + size;
-    size_t total_size_aligned = ALIGN_UP(total_size);
-    uint8_t align_shift = total_size_aligned - total_size;
+    /*
+     * Always use maximum alignment for the platform:
+     * user data must start at an aligned offset from the (aligned) header,
+     * whatever the requested size is.
+     */
+    const size_t hdr_size = sizeof(mem_header_t);
+    const size_t total_size = hdr_size + size;
+    uint8_t align_shift = ALIGN_UP(hdr_size) - hdr_size;
     if (align_shift == 0) {
         /* Add a new aligned block; it is needed to later store alignment information */
         align_shift = alignof(max_align_t);
